@@ -114,7 +114,7 @@ def minimise(ctx, hid, ops):
     if not run_checker(ctx, [("p", cur)], "min", timeout=120).get("p", "").startswith("nonlin"):
         return [list(o) for o in ops]
     i = 0
-    while i < len(cur):
+    while i < len(cur) and len(cur) <= 80:      # long histories keep their prefix form
         if state_preserving(cur[i]):
             cand = cur[:i] + cur[i + 1:]
             r = run_checker(ctx, [("d", cand)], "min", timeout=120)
@@ -170,13 +170,15 @@ def port_base():
     return 30000 + (os.getpid() % 120) * 16
 
 
-def run_cluster(ctx, sub, seed, mode, engine, dur, clients, nseq, replay_cases=None):
+def run_cluster(ctx, sub, seed, mode, engine, dur, clients, nseq, replay_cases=None, extra=""):
     d = os.path.join(ctx.run_dir, sub)
     shutil.rmtree(d, ignore_errors=True)
     os.makedirs(d)
     tdur = 3 if ctx.tier == "quick" else 8
     cmd = "%s -seed %d -out %s -port %d -mode %s -engine %s -dur %ds -clients %d -nseq %d -racedur %ds -pairdur %ds" % (
         os.path.join(vlib.BIN, CMD), seed, d, port_base(), mode, engine, dur, clients, nseq, tdur, tdur)
+    if extra:
+        cmd += " " + extra
     if replay_cases:
         cmd += " -replay %s" % replay_cases
     to = dur + 400
@@ -293,7 +295,7 @@ def run(ctx):
         raise SystemExit(2)
     vlib.regen_consts(GROUP, CMD)
     proofs_ok, info = ctx.check_proofs(
-        make_targets=["Lin/CheckerProofs.vo", "Lin/ProtocolProofs.vo", "Lin/LocalityProofs.vo", "Lin/BatchingProofs.vo", "Properties/C04.vo"],
+        make_targets=["Lin/CheckerProofs.vo", "Lin/ProtocolProofs.vo", "Lin/LocalityProofs.vo", "Lin/BatchingProofs.vo", "Lin/MemoProofs.vo", "Properties/C04.vo"],
         gate_paths=["Lin", "Properties/C04"])
     mok, mout, _ = vlib.model_build(GROUP)
     if not mok:
@@ -362,14 +364,18 @@ def run(ctx):
                 ("t3", s + 3, "procs", "rocksdb", 150, 8, 40),
                 ("t4", s + 4, "procs", "pebble", 150, 4, 40),
                 ("t5", s + 5, "inproc", "pebble", 90, 8, 40),
-                ("t6", s + 6, "procs", "mem", 120, 6, 40)]
+                ("t6", s + 6, "procs", "mem", 120, 6, 40),
+                # long per-key histories (150-200 operations each): only the memoised checker can judge them
+                ("t7", s + 7, "inproc", "mem", 50, 8, 10, "-minb 150 -maxb 200 -maxunk 8 -pace 2ms -racedur 0s -pairdur 0s")]
 
     def do_runs(plan):
         nonlocal hist_total, ops_total, ack_total, unk_total, seq_total, inconcl
         fails_acc, mism_acc = [], []
-        for (label, seed, mode, engine, dur, clients, nseq) in plan:
-            log("run %s: mode=%s engine=%s load=%ds clients=%d seed=%d" % (label, mode, engine, dur, clients, seed))
-            d, out = run_cluster(ctx, label, seed, mode, engine, dur, clients, nseq)
+        for entry in plan:
+            (label, seed, mode, engine, dur, clients, nseq) = entry[:7]
+            extra = entry[7] if len(entry) > 7 else ""
+            log("run %s: mode=%s engine=%s load=%ds clients=%d seed=%d %s" % (label, mode, engine, dur, clients, seed, extra))
+            d, out = run_cluster(ctx, label, seed, mode, engine, dur, clients, nseq, extra=extra)
             if d is None:
                 if out.startswith("INCONCLUSIVE"):
                     inconcl += 1
